@@ -18,7 +18,7 @@ RULE = ('Generated: structures of straight and tapered wires, arcs and helices, 
         'the frequency; over ground minus the same expression for the mirrored source path unless the source pulse '
         'is grounded; tolerance 1e-4 of the summed magnitudes of the potential terms.  Non-trivial = pair involves '
         'a junction or grounded pulse, legs of different direction / length / radius, or an image term.')
-BUDGET = {'quick': {'examples': 800, 'wall': 220}, 'thorough': {'examples': 15000, 'wall': 1500}}
+BUDGET = {'quick': {'examples': 3200, 'wall': 220}, 'thorough': {'examples': 40000, 'wall': 1500}}
 ASSUMPTIONS = ['reference topology (pulse paths) validated by C12, segment end points of tapered wires by C13']
 LABEL_FLOORS = {'env-ideal': 0.3, 'pair-junc': 0.3, 'pair-gnd': 0.1, 'thick': 0.3, 'thin': 0.2, 'curve': 0.1, 'tmpl-stepped-chain': 0.12,
                 'gnd-end2-nonvertical': 0.02}
